@@ -31,8 +31,8 @@ def run(tier, replay=None):
         texts += list(dict.fromkeys(c["text"] for c in cres.tagged("CASE"))) + corpus.SHARED_PROGRAMS
         texts += list(corpus.all_programs().values()) + corpus.VALUE_PROGRAMS + corpus.LOOP_PROGRAMS
         texts = list(dict.fromkeys(texts))
-    hc = [{"id": i + 1, "mode": "stable", "text": t, "histories": hists} for i, t in enumerate(texts)]
-    tp, evs = run_harness(rvh, hc, wd, "stable", timeout_ms=30000)
+    hc = [{"id": i + 1, "mode": "stable", "text": t, "histories": hists, "digest": not replay} for i, t in enumerate(texts)]
+    tp, evs = run_harness_par(rvh, hc, wd, "stable", timeout_ms=30000, shards=12)
     trace = []
     owner = []
     nruns = 0
@@ -68,6 +68,7 @@ def run(tier, replay=None):
     out.sample({"text": texts[0], "histories": hists[:4]})
     out.sample({"history": hists[-1]})
     out.assumptions += [
+        "the harness sends a 64-bit keyed digest (with length) of each observable group instead of its text (equality is all the specification asks); a replay sends the text",
         "observables: node list, edges, value facts, live sets, u_def, function table / owners, lint diagnostics (canonical JSON per group)",
         "sweep bound 2*N + 3 per pass run (N = number of Cfg nodes); sweep counters come from the rva_verif hooks",
         "a chunk boundary of the validated trace may drop one comparison, never add one",
